@@ -384,7 +384,9 @@ struct Marks {
     /// offsets at which a statement / a module-level item can be inserted
     stmt_points: Vec<usize>,
     item_points: Vec<usize>,
-    /// whitespace runs (start, end) of length >= 2 and comment spans
+    /// spans (without outer trivia) of inline macro invocations and attributes: code that is handed to
+    /// a plugin and comes back as a generated (virtual) file with code mappings
+    invocations: Vec<(usize, usize)>,
     parse_errors: usize,
 }
 
@@ -397,6 +399,20 @@ fn marks_of(text: &str) -> Marks {
         let k = n.kind(dbr);
         let sp = n.span(dbr);
         let (s, e) = (sp.start.as_u32() as usize, sp.end.as_u32() as usize);
+        if matches!(
+            k,
+            SyntaxKind::ExprInlineMacro
+                | SyntaxKind::ItemInlineMacro
+                | SyntaxKind::LegacyExprInlineMacro
+                | SyntaxKind::LegacyItemInlineMacro
+                | SyntaxKind::Attribute
+        ) {
+            let st = n.span_without_trivia(dbr);
+            let (a, b) = (st.start.as_u32() as usize, st.end.as_u32() as usize);
+            if b > a + 2 {
+                m.invocations.push((a, b));
+            }
+        }
         if k.is_terminal() {
             let st = n.span_without_trivia(dbr);
             let (a, b) = (st.start.as_u32() as usize, st.end.as_u32() as usize);
@@ -447,6 +463,12 @@ struct Gen<'a> {
     /// histories that concentrate on constructs carrying diagnostics (every phase), inserted before
     /// and between the existing ones, duplicated, moved, deleted
     diag_mode: bool,
+    /// histories that edit INSIDE macro invocations / attributes (code expanded by plugins into
+    /// generated files), keeping the outer extent where possible
+    gen_mode: bool,
+    /// (file, start of the invocation) of the last length-changing edit inside an invocation: the next
+    /// step tends to cancel the length change elsewhere inside the same invocation
+    pending_inside: Option<(usize, usize, i64)>,
 }
 
 /// A self-contained statement that carries a diagnostic. `phase`: 0 lowering/borrow-check (also inside
@@ -496,6 +518,51 @@ fn diag_statement(rng: &mut Rng, n: usize, phase: u64, has_nodrop: bool) -> (Str
     }
 }
 
+/// The (trimmed) byte ranges of the comma-separated arguments between `from` and the closing delimiter
+/// before `end`, at nesting depth 0, string literals respected.
+fn top_level_args(text: &str, from: usize, end: usize) -> Option<Vec<(usize, usize)>> {
+    let b = text.as_bytes();
+    let close = end.checked_sub(1)?;
+    if from >= close {
+        return None;
+    }
+    let (mut depth, mut in_str, mut start) = (0i32, false, from);
+    let mut res = vec![];
+    let push = |a: usize, z: usize, res: &mut Vec<(usize, usize)>| {
+        let t = &text[a..z];
+        let lead = t.len() - t.trim_start().len();
+        let trail = t.len() - t.trim_end().len();
+        if a + lead < z - trail {
+            res.push((a + lead, z - trail));
+        }
+    };
+    let mut i = from;
+    while i < close {
+        let c = b[i];
+        if in_str {
+            if c == b'\\' {
+                i += 1;
+            } else if c == b'"' {
+                in_str = false;
+            }
+        } else {
+            match c {
+                b'"' => in_str = true,
+                b'(' | b'[' | b'{' => depth += 1,
+                b')' | b']' | b'}' => depth -= 1,
+                b',' if depth == 0 => {
+                    push(start, i, &mut res);
+                    start = i + 1;
+                }
+                _ => {}
+            }
+        }
+        i += 1;
+    }
+    push(start, close, &mut res);
+    if res.iter().all(|(a, z)| text.is_char_boundary(*a) && text.is_char_boundary(*z)) { Some(res) } else { None }
+}
+
 /// A self-contained module-level item that carries diagnostics.
 fn diag_item(rng: &mut Rng, n: usize) -> (String, &'static str) {
     let mv = |v: &str| format!("let {v}: Array<felt252> = array![]; let _{v}1 = {v}; let _{v}2 = {v};");
@@ -531,7 +598,7 @@ impl Gen<'_> {
     fn step_ex(&mut self, files: &[FileState], last: bool, broken: bool, good: Option<&Vec<String>>) -> Step {
         // a project that no longer compiles is brought back to its last error-free contents with some
         // probability, so that long histories keep producing Sierra
-        if let (true, Some(g), false) = (broken, good, self.diag_mode) {
+        if let (true, Some(g), false) = (broken, good, self.diag_mode || self.gen_mode) {
             if self.rng.below(100) < 35 {
                 let sp: Vec<Splice> = files
                     .iter()
@@ -561,6 +628,29 @@ impl Gen<'_> {
             }
         };
         let walk = self.rng.below(3) == 0;
+        if self.gen_mode {
+            let query = if query >= 3 { (query - 3).min(1) } else { query };
+            for _ in 0..40 {
+                // prefer the file of a pending length change
+                let f = match self.pending_inside {
+                    Some((pf, _, _)) if self.rng.below(10) < 8 => pf,
+                    _ => self.rng.below(files.len() as u64) as usize,
+                };
+                let text = files[f].cur().to_string();
+                let m = marks_of(&text);
+                let r = match self.rng.below(100) {
+                    0..=79 => self.inside_invocation(f, &text, &m),
+                    80..=85 => self.insert_diag_statement(f, &files[f], &text, &m),
+                    86..=89 => self.duplicate(f, &text, &m),
+                    90..=92 => self.delete(f, &text, &m),
+                    93..=96 => self.trivia(f, &text, &m),
+                    _ => self.unset(files, f),
+                };
+                if let Some((kind, action)) = r {
+                    return Step { kind, action, query, walk };
+                }
+            }
+        }
         if self.diag_mode {
             // always ask for the diagnostics (full ordered text is compared)
             let query = if query >= 3 { (query - 3).min(1) } else { query };
@@ -739,6 +829,154 @@ impl Gen<'_> {
         let (stmt, kind) = diag_statement(self.rng, n, phase, text.contains("struct NoDrop"));
         let at = *self.rng.pick(&m.stmt_points);
         Some((format!("insert-diag:{kind}"), Action::Edit(vec![Splice { file: f, start: at, end: at, text: format!("\n    {stmt}") }])))
+    }
+
+    /// Edits inside (or just before) a macro invocation / attribute. Trivia positions are the bytes
+    /// inside the invocation that belong to no terminal; boundaries are starts/ends of terminals.
+    fn inside_invocation(&mut self, f: usize, text: &str, m: &Marks) -> Option<(String, Action)> {
+        if m.invocations.is_empty() {
+            return None;
+        }
+        // the invocation: the one with a pending length change, if it still starts where it did
+        let pending = self.pending_inside.filter(|(pf, _, _)| *pf == f);
+        let (s, e) = match pending.and_then(|(_, ps, _)| m.invocations.iter().find(|(a, _)| *a == ps)) {
+            Some(x) if self.rng.below(10) < 8 => *x,
+            _ => *self.rng.pick(&m.invocations),
+        };
+        let inner: Vec<(SyntaxKind, usize, usize)> = m.terminals.iter().filter(|(_, a, b)| *a >= s && *b <= e).cloned().collect();
+        if inner.len() < 3 {
+            return None;
+        }
+        let bytes = text.as_bytes();
+        let in_terminal = |p: usize| inner.iter().any(|(_, a, b)| p >= *a && p < *b);
+        let word = |c: u8| c.is_ascii_alphanumeric() || c == b'_' || c == b'\'' || c == b'"';
+        // single spaces in trivia whose removal does not glue two words together
+        let spaces: Vec<usize> = (s + 1..e.saturating_sub(1))
+            .filter(|p| bytes[*p] == b' ' && !in_terminal(*p) && !(word(bytes[*p - 1]) && word(bytes[*p + 1])))
+            .collect();
+        // boundaries strictly inside, after the opening delimiter
+        let open = inner.iter().position(|(k, _, _)| {
+            matches!(k, SyntaxKind::TerminalLParen | SyntaxKind::TerminalLBrack | SyntaxKind::TerminalLBrace)
+        });
+        let first_inner = open.map(|i| inner[i].2).unwrap_or(inner[0].2);
+        let bounds: Vec<usize> = inner
+            .iter()
+            .flat_map(|(_, a, b)| [*a, *b])
+            .filter(|p| *p >= first_inner && *p < e && text.is_char_boundary(*p))
+            .collect();
+        let line_start = text[..s].rfind('\n').map(|i| i + 1).unwrap_or(0);
+        let choice = if pending.is_some() && self.rng.below(10) < 7 { 100 } else { self.rng.below(100) };
+        let n = self.fresh();
+        match choice {
+            100 => {
+                // cancel the pending length change inside the same invocation
+                let (_, _, delta) = pending.unwrap();
+                self.pending_inside = None;
+                if delta < 0 {
+                    let q = *self.rng.pick(&bounds);
+                    Some(("inside:insert-space(cancelling)".into(), Action::Edit(vec![Splice { file: f, start: q, end: q, text: " ".into() }])))
+                } else {
+                    let p = *self.rng.pick(if spaces.is_empty() { return None } else { &spaces });
+                    Some(("inside:delete-space(cancelling)".into(), Action::Edit(vec![Splice { file: f, start: p, end: p + 1, text: String::new() }])))
+                }
+            }
+            0..=24 => {
+                // (a) a space moves inside the invocation: same outer extent, same length
+                let p = *self.rng.pick(if spaces.is_empty() { return None } else { &spaces });
+                let q = *self.rng.pick(&bounds);
+                if q == p || q == p + 1 {
+                    return None;
+                }
+                Some((
+                    "inside:move-space".into(),
+                    Action::Edit(vec![
+                        Splice { file: f, start: p, end: p + 1, text: String::new() },
+                        Splice { file: f, start: q, end: q, text: " ".into() },
+                    ]),
+                ))
+            }
+            25..=36 => {
+                let p = *self.rng.pick(if spaces.is_empty() { return None } else { &spaces });
+                self.pending_inside = Some((f, s, -1));
+                Some(("inside:delete-space".into(), Action::Edit(vec![Splice { file: f, start: p, end: p + 1, text: String::new() }])))
+            }
+            37..=48 => {
+                let q = *self.rng.pick(&bounds);
+                self.pending_inside = Some((f, s, 1));
+                Some(("inside:insert-space".into(), Action::Edit(vec![Splice { file: f, start: q, end: q, text: " ".into() }])))
+            }
+            49..=54 => {
+                // (b) lengths change inside: a comment (ends the line) or several blanks
+                let q = *self.rng.pick(&bounds);
+                let t = if self.rng.bool() { format!(" // in{n}\n        ") } else { "   ".to_string() };
+                Some(("inside:insert-trivia".into(), Action::Edit(vec![Splice { file: f, start: q, end: q, text: t }])))
+            }
+            55..=69 => {
+                // (c) an identifier inside gets another name of the same length
+                let ids: Vec<(usize, usize)> = inner
+                    .iter()
+                    .filter(|(k, a, _)| *k == SyntaxKind::TerminalIdentifier && *a >= first_inner)
+                    .map(|(_, a, b)| (*a, *b))
+                    .collect();
+                let (a, b) = *self.rng.pick(if ids.is_empty() { return None } else { &ids });
+                let old = &text[a..b];
+                let last = old.as_bytes()[old.len() - 1];
+                let repl = if last == b'q' { b'k' } else { b'q' };
+                let mut new = old.as_bytes().to_vec();
+                let k = new.len() - 1;
+                new[k] = repl;
+                Some(("inside:rename-same-length".into(), Action::Edit(vec![Splice { file: f, start: a, end: b, text: String::from_utf8(new).ok()? }])))
+            }
+            70..=81 => {
+                // (d) two arguments of equal length change places
+                let args = top_level_args(text, first_inner, e)?;
+                let mut pairs = vec![];
+                for i in 0..args.len() {
+                    for j in i + 1..args.len() {
+                        let (x, y) = (&text[args[i].0..args[i].1], &text[args[j].0..args[j].1]);
+                        if x.len() == y.len() && x != y {
+                            pairs.push((i, j));
+                        }
+                    }
+                }
+                let (i, j) = *self.rng.pick(if pairs.is_empty() { return None } else { &pairs });
+                let (x, y) = (text[args[i].0..args[i].1].to_string(), text[args[j].0..args[j].1].to_string());
+                Some((
+                    "inside:swap-equal-length-args".into(),
+                    Action::Edit(vec![
+                        Splice { file: f, start: args[i].0, end: args[i].1, text: y },
+                        Splice { file: f, start: args[j].0, end: args[j].1, text: x },
+                    ]),
+                ))
+            }
+            82..=89 => {
+                // (e) the same kind of edit before the invocation, on its line
+                if self.rng.bool() {
+                    let q = line_start + self.rng.below((s - line_start + 1) as u64) as usize;
+                    if !text.is_char_boundary(q) || (q > 0 && q < text.len() && word(bytes[q - 1]) && word(bytes[q])) {
+                        return None;
+                    }
+                    Some(("before:insert-space".into(), Action::Edit(vec![Splice { file: f, start: q, end: q, text: " ".into() }])))
+                } else {
+                    let cands: Vec<usize> = (line_start..s).filter(|p| bytes[*p] == b' ' && (*p == line_start || bytes[*p - 1] == b' ')).collect();
+                    let p = *self.rng.pick(if cands.is_empty() { return None } else { &cands });
+                    Some(("before:delete-space".into(), Action::Edit(vec![Splice { file: f, start: p, end: p + 1, text: String::new() }])))
+                }
+            }
+            _ => {
+                // a space moves from before the invocation into it (or back): the outer start shifts
+                let cands: Vec<usize> = (line_start..s).filter(|p| bytes[*p] == b' ' && (*p == line_start || bytes[*p - 1] == b' ')).collect();
+                let p = *self.rng.pick(if cands.is_empty() { return None } else { &cands });
+                let q = *self.rng.pick(&bounds);
+                Some((
+                    "before:move-space-inside".into(),
+                    Action::Edit(vec![
+                        Splice { file: f, start: p, end: p + 1, text: String::new() },
+                        Splice { file: f, start: q, end: q, text: " ".into() },
+                    ]),
+                ))
+            }
+        }
     }
 
     fn insert_diag_item(&mut self, f: usize, m: &Marks) -> Option<(String, Action)> {
@@ -1063,6 +1301,9 @@ fn run_history(
         if let Some(k) = step.kind.strip_prefix("insert-diag:") {
             *stats.diag_constructs.entry(k.to_string()).or_insert(0) += 1;
         }
+        if step.kind.starts_with("inside:") || step.kind.starts_with("before:") {
+            *stats.diag_constructs.entry(format!("invocation/{}", step.kind)).or_insert(0) += 1;
+        }
         stats.steps += 1;
         let state_hash = files.iter().fold(0u64, |h, f| h.wrapping_mul(31).wrapping_add(fnv(f.cur())));
         stats.distinct_states.insert(state_hash);
@@ -1172,7 +1413,7 @@ fn leg_reid(out: &str, tier: &str, summary: &mut serde_json::Map<String, Value>,
     let mut cases: Vec<String> = vec![];
     let mut it = Interner::default();
     let (mut kept, mut fresh_ids, mut total) = (0usize, 0usize, 0usize);
-    let mut g = Gen { rng: &mut rng, counter: 0, diag_mode: false };
+    let mut g = Gen { rng: &mut rng, counter: 0, diag_mode: false, gen_mode: false, pending_inside: None };
     for c in 0..n_cases {
         let src = &srcs[g.rng.below(srcs.len() as u64) as usize];
         let text = std::fs::read_to_string(src).unwrap();
@@ -1261,6 +1502,8 @@ fn projects() -> Vec<Project> {
         Project { name: "single".into(), src: format!("{vr}/corpus/C13/single/lib.cairo").into() },
         Project { name: "diags".into(), src: format!("{vr}/corpus/C13/diags").into() },
         Project { name: "examples".into(), src: format!("{repo}/examples").into() },
+        Project { name: "gen".into(), src: format!("{vr}/corpus/C13/gen").into() },
+        Project { name: "gen".into(), src: format!("{vr}/corpus/C13/gen").into() },
     ]
 }
 
@@ -1312,7 +1555,7 @@ fn main() {
                         }
                         let proj = &projs[h % projs.len()];
                         let mut rng = Rng(seed.wrapping_mul(0x9E3779B97F4A7C15).wrapping_add(1000 + h as u64));
-                        let generator = Gen { rng: &mut rng, counter: 0, diag_mode: proj.name == "diags" };
+                        let generator = Gen { rng: &mut rng, counter: 0, diag_mode: proj.name == "diags", gen_mode: proj.name == "gen", pending_inside: None };
                         let work = PathBuf::from(format!("{out}/../work/h{h}"));
                         let mut st = Stats::default();
                         let (steps, fail) = run_history(&work, proj, n_steps, Some(generator), &[], &mut st, std::env::var("H13_VERBOSE").is_ok());
